@@ -4,7 +4,7 @@
    (assemble_chains = Modify.modify for all hosts and fragments) is the substitution theorem, pending; the check
    decides Modify.modify_all against the library's output per input in extracted Coq. *)
 From Coq Require Import List Bool Arith Lia.
-From GV Require Import Base.Util Spec.Smiles Spec.Chem Spec.Iso Spec.Graft Spec.Modify Spec.Acyl Gen.Tables Proofs.AcylThm.
+From GV Require Import Base.Util Spec.Smiles Spec.Chem Spec.Iso Spec.Graft Spec.Modify Spec.Acyl Gen.Tables Proofs.AcylThm Model.PolyCarbon Proofs.PolyCarbonThm.
 Import ListNotations.
 Open Scope list_scope.
 
@@ -39,3 +39,13 @@ Theorem C04_named_fatty_acids_are_their_designation name a :
     sem_str (s2l frag) = Some ma /\ sem_str txt = Some mb /\ same_molecule ma mb = true.
 Proof. exact (named_acyls_agree name a). Qed.
 Print Assumptions C04_named_fatty_acids_are_their_designation.
+
+(* the model of SMILESReaktor.parse_poly_carbon (tied to the code by string comparison on every run) writes the text of
+   the designation's specification.  BOUNDED: chain length below 27, at most two double bonds; code_writes excludes a
+   geometry directly conjugated to a preceding cis double bond, which the code cannot write. *)
+Theorem C04_poly_carbon_is_the_designation_bounded a :
+  ac_n a < 27 -> length (ac_dbs a) <= 2 -> Forall (fun d => snd d < 27) (ac_dbs a) ->
+  acyl_ok a = true -> code_writes (ac_dbs a) = true ->
+  parse_poly_carbon (name_of a) = acyl_text a.
+Proof. exact (poly_carbon_is_the_designation_bounded a). Qed.
+Print Assumptions C04_poly_carbon_is_the_designation_bounded.
